@@ -150,6 +150,8 @@ def byte_len(s) -> int:
         return s[2] * byte_len(s[1])
     if k in ("tuple", "ntuple"):
         return tuple_head_len(s[-1])
+    if k == "ref":
+        return 1  # ARC-4: account / asset / application arguments are encoded as a uint8 index into the foreign arrays
     raise ValueError(f"{s} is dynamic")
 
 
